@@ -106,6 +106,27 @@ def split_cases(ctx, n_seq, n_adds):
     return cases
 
 
+def reader_accessor_queries(rng, fid, rec, cap=48):
+    """The file-level per-event accessor HDF5Reader.get_waveforms for every event_id in -n-1..n (the two
+    outside must raise on both sides) and every waveform index 0..rows+1, in int / float / str forms,
+    with and without antenna_id: must agree with f[i] / the sequential pass."""
+    evs = rec["events"]
+    if evs[0] != "ok":
+        return []
+    n = len(evs[2])
+    qs = []
+    for e in range(-n - 1, n + 1):
+        qs.append(["wfev", fid, None, e])
+        if -n <= e < n:
+            w = evs[2][e % n][ioc.TABLES.index("W")]
+            nrows = len(w) if isinstance(w, list) else 0
+        else:
+            nrows = 0
+        for k in range(nrows + 2):
+            qs.append(["wf", fid, None, e, k, rng.choice(["int", "int", "str", "float"])])
+    return rng.sample(qs, cap) if len(qs) > cap else qs
+
+
 def make_qgen(ctx):
     rng = ctx.rng
 
@@ -141,6 +162,7 @@ def make_qgen(ctx):
         for i, r in enumerate(recs):
             if r["ctor"] is None:
                 qs += ioc.gen_queries(rng, i, len(r["index"]), thorough=ctx.thorough, max_slices=case.get("_max_slices"))
+                qs += reader_accessor_queries(rng, i, r)
                 qs.append(["gen", rng.choice([1, 2, 3, 100]), [i]])
         return qs
     return qgen
@@ -191,7 +213,7 @@ def run(ctx):
     corp = corpus_cases()
     if corp:
         problems += ioc.run_batch(ctx, corp, PROP, stats, label="k")
-    cases = access_cases(ctx, ctx.n(12, 18) if big else 6, 9 if ctx.thorough else 7, None if ctx.thorough else 40)
+    cases = access_cases(ctx, ctx.n(12, 15) if big else 6, 9 if ctx.thorough else 7, None if ctx.thorough else 40)
     cases += gen_cases_multi(ctx, ctx.n(10, 20) if big else 5, 8 if ctx.thorough else 6)
     cases += split_cases(ctx, ctx.n(4, 5) if big else 2, 6 if ctx.thorough else 5)
     cases += history_cases(ctx, ctx.n(2, 5), ctx.n(130, 240))
